@@ -537,7 +537,38 @@ fn text_graph(p: &Project, root: &Path) -> (BTreeMap<String, BTreeSet<String>>, 
     (deps, dirs)
 }
 
+/// exports -> interface JSON (the text the CLI writes) -> exports: what the typer of an importer reads
+/// (`exports.apply_to`, `hir_interface`) must be what the exporter wrote.  Compared three ways that do not
+/// go through each other: the `Debug` rendering of every field (maps in their iteration order), the compact
+/// JSON of the re-read value, and the hash the loader recomputes.
+fn exports_roundtrip(unit: &compiler::artifact::InterfaceUnit, json: &str) -> (String, usize) {
+    let e = &unit.exports;
+    let entries = e.type_env.enums.len() + e.type_env.structs.len() + e.type_env.extern_types.len() + e.trait_env.trait_defs.len()
+        + e.trait_env.trait_impls.len() + e.trait_env.inherent_impls.len() + e.value_env.funcs.len() + e.value_env.extern_funcs.len();
+    let back: compiler::artifact::InterfaceUnit = match serde_json::from_str(json) {
+        Ok(u) => u,
+        Err(err) => return (format!("parse-error:{}", err.to_string().chars().take(80).collect::<String>()), entries),
+    };
+    let v = if format!("{:?}", back.exports) != format!("{:?}", unit.exports) {
+        "exports-differ"
+    } else if format!("{:?}", back.exports.to_genv()) != format!("{:?}", unit.exports.to_genv()) {
+        "genv-differs"
+    } else if format!("{:?}", back.hir_interface) != format!("{:?}", unit.hir_interface) {
+        "hir-interface-differs"
+    } else if back.deps != unit.deps || back.package != unit.package {
+        "header-differs"
+    } else if serde_json::to_string(&back).ok() != serde_json::to_string(unit).ok() {
+        "json-differs"
+    } else if !back.validate_hash() || back.interface_hash != unit.interface_hash {
+        "hash-differs"
+    } else {
+        "same"
+    };
+    (v.to_string(), entries)
+}
+
 struct SepResult {
+    roundtrip: Vec<(String, (String, usize))>,
     outcome: String,
     go: Option<crate::sexp::S>,
     core: Option<crate::sexp::S>,
@@ -550,7 +581,7 @@ fn separate_build(root: &Path, order: &[String], dirs: &BTreeMap<String, PathBuf
     let _ = std::fs::remove_dir_all(&art);
     let _ = std::fs::create_dir_all(&art);
     let mut iface = Vec::new();
-    let mut res = SepResult { outcome: String::new(), go: None, core: None, go_text: String::new(), iface: Vec::new() };
+    let mut res = SepResult { roundtrip: Vec::new(), outcome: String::new(), go: None, core: None, go_text: String::new(), iface: Vec::new() };
     for p in order {
         let dir = dirs.get(p).cloned().unwrap_or_else(|| root.join(p));
         let inputs = package_inputs(&dir);
@@ -571,6 +602,7 @@ fn separate_build(root: &Path, order: &[String], dirs: &BTreeMap<String, PathBuf
             Ok(unit) => {
                 let ij = serde_json::to_string_pretty(&unit.interface).unwrap_or_default();
                 let cj = serde_json::to_string_pretty(&unit).unwrap_or_default();
+                res.roundtrip.push((p.clone(), exports_roundtrip(&unit.interface, &ij)));
                 let _ = std::fs::write(art.join(format!("{}.interface", p)), ij);
                 let _ = std::fs::write(art.join(format!("{}.core", p)), cj);
             }
@@ -684,6 +716,9 @@ fn run_project(p: &Project, root: &Path, cap: usize, rng: &mut Rng, out: &mut St
             Ok(res) => {
                 for (pkg, verdict) in &res.iface {
                     writeln!(out, "{}\tIFACE\t{}\t{}\t{}", id, k, pkg, verdict).unwrap();
+                }
+                for (pkg, (verdict, entries)) in &res.roundtrip {
+                    writeln!(out, "{}\tRT\t{}\t{}\t{}\t{}", id, k, pkg, verdict, entries).unwrap();
                 }
                 if res.outcome == "ok" {
                     let idx = match seen.iter().position(|t| *t == res.go_text) {
